@@ -35,7 +35,7 @@ def gen_abstract(r):
     for i in range(r.choice([0, 1, 2, 3, 6])):
         name = r.choice(["a%d.txt", "src/m%d.py", "docs/r%d.md", "Docs/ReadMe%d.MD", "SRC/Pkg%d/__init__.py"]) % i   # file names are case sensitive
         files[name] = [r.choice(['__version__ = "{version}"', "{version}", "{pep440_version}", 'v = "{pep440_version}"', "Copyright YYYY" if "{" not in vp else "{version} ",
-                                 'version = "{version}"  # managed by bumpver', "{version} ; stable"])
+                                 'version = "{version}"  # managed by bumpver', "{version} ; stable", "badge%20v{version}", "100%% {version}"])
                        for _ in range(r.choice([1, 1, 2, 4]))]
         files[name] = list(dict.fromkeys(p.strip() for p in files[name]))
     c["files"] = files
@@ -61,6 +61,8 @@ def render_ini(c, r, section="bumpver", quote="all"):
     def qv(s, key):
         if quote == "all" or (quote == "mixed" and key in ("current_version",)):
             return '"%s"' % s
+        if quote == "single" and "'" not in s:
+            return "'%s'" % s
         return s
     lines = ["[%s]" % section, "current_version = %s" % qv(c["current_version"], "current_version"), "version_pattern = %s" % qv(c["version_pattern"], "version_pattern")]
     for k in ("commit_message", "tag_message", "tag_scope", "pre_commit_hook", "post_commit_hook"):
@@ -101,7 +103,7 @@ def render_toml(c, section="bumpver"):
     return "\n".join(lines) + "\n"
 
 
-SIBLINGS = [("setup.cfg", "ini", "bumpver", "all"), ("setup.cfg", "ini", "bumpver", "none"), ("setup.cfg", "ini", "bumpver", "mixed"),
+SIBLINGS = [("setup.cfg", "ini", "bumpver", "all"), ("setup.cfg", "ini", "bumpver", "none"), ("setup.cfg", "ini", "bumpver", "mixed"), ("setup.cfg", "ini", "bumpver", "single"),
             ("setup.cfg", "ini", "pycalver", "all"), ("pyproject.toml", "toml", "tool.bumpver", None), ("bumpver.toml", "toml", "bumpver", None),
             (".bumpver.toml", "toml", "bumpver", None), ("pycalver.toml", "toml", "pycalver", None)]
 
@@ -141,7 +143,7 @@ def run(rep, tier, seed, model_ok=True, effort=1):
     r = common.rng(seed, "c18")
     n = (40 if tier == "quick" else 800) * effort
     rep.rule = ("abstract configurations (v2 and legacy patterns, optional keys present/missing, all tag scopes, hooks, every boolean spelling, messages and patterns containing ' #' and ' ;', sections of other tools before/after, 0..6 files x 1..4 "
-                "patterns) written as 8 siblings: setup.cfg [bumpver] with quoted / unquoted / mixed strings, setup.cfg [pycalver], pyproject.toml, bumpver.toml, "
+                "patterns) written as 9 siblings: setup.cfg [bumpver] with double-quoted / unquoted / mixed / single-quoted strings, setup.cfg [pycalver], pyproject.toml, bumpver.toml, "
                 ".bumpver.toml, pycalver.toml; the parsed Config of all siblings must be equal (own current_version line aside, which must be found by its "
                 "own pattern), `update --dry` must announce the same version; raw library values fed to the Coq model of _parse_config; non-trivial = distinct "
                 "configuration accepted by at least one sibling")
